@@ -195,8 +195,11 @@ def check_trace(sh, prog_text, syntax, quiet, res, expect, line_key, fname, what
         i = 0
         while i < min(len(cw), len(cg)) and cw[i] == cg[i]:
             i += 1
+        ending = "cr" if ("\r" in prog_text and "\n" not in prog_text) else ("crlf" if "\r\n" in prog_text else "lf")
         sh.violation("trace:" + h, "Logger trace differs from the expected trace at event #%d\nexpected (kind, file, line, message): %s\nobserved: %s\n%s" % (
-            i, cw[i:i + 3], cg[i:i + 3], prog_text[:1200]), rp, dict(facts, expected=cw[:40], observed=cg[:40]))
+            i, cw[i:i + 3], cg[i:i + 3], prog_text[:1200]), rp, dict(facts, expected=cw[:40], observed=cg[:40], line_ending=ending,
+                 differs_only_in_line_numbers=_collapse([(a, b, 0, d) for a, b, c, d in want]) == _collapse([(a, b, 0, d) for a, b, c, d in got]),
+                 every_observed_line_is_1=bool(cg) and all(c == 1 for a, b, c, d in cg)))
         return
     sh.count("traces_agree")
     if cw:
@@ -274,9 +277,17 @@ def run(sh):
         specs, meta = [], []
         for prog, expect in cases:
             scss, sass = ast.to_scss(prog), ast.to_sass(prog)
+            # line endings: LF, CRLF and CR are each one line break, so the expected line numbers do not change
+            # (the printers never put a raw line break inside a string)
+            # (form feed is left out: the statement does not say that it starts a new *numbered* line, and the span
+            # library of the reference implementation does not count it either)
+            nl_name, nl = rng.choice([("lf", "\n"), ("lf", "\n"), ("crlf", "\r\n"), ("crlf", "\r\n"), ("crlf", "\r\n"), ("cr", "\r")])
+            if nl != "\n":
+                scss, sass = scss.replace("\n", nl), sass.replace("\n", nl)
+                sh.count("trace_programs_with_" + nl_name)
             quiet = rng.chance(0.25)
             specs.append({"text": scss, "syntax": "scss", "quiet": quiet, "budgets": {"steps": 500000}})
-            meta.append((scss, "scss", quiet, expect, "scss", "stdin", "entry"))
+            meta.append((scss, "scss", quiet, expect, "scss", "stdin", "entry"))   # (`what` == "entry" also selects samples)
             specs.append({"text": sass, "syntax": "sass", "quiet": quiet, "budgets": {"steps": 500000}})
             meta.append((sass, "sass", quiet, expect, "sass", "stdin", "entry"))
             # the same program reached through @import / @use: diagnostics must name the imported file
@@ -284,7 +295,7 @@ def run(sh):
             ext, key_, body = rng.choice([("scss", "scss", scss), ("sass", "sass", sass)])
             path = "/p/sub/_dep." + ext
             specs.append({"entry": "/p/main.scss", "files": {"/p/main.scss": '%s "sub/dep";\n' % how, path: body}, "quiet": quiet, "budgets": {"steps": 500000}})
-            meta.append((body, ext, quiet, expect, key_, path, how))
+            meta.append((body, ext, quiet, expect, key_, path, how + ":" + nl_name))
         rs = sh.w.batch(specs)
         for (text, syn, quiet, expect, lk, fname, what), r in zip(meta, rs):
             check_trace(sh, text, syn, quiet, r, expect, lk, fname, what)
